@@ -195,6 +195,34 @@ def run_edges(module, cfg, world, name, seed, profile='dev', workers=8, timeout=
     return stats, rep
 
 
+
+def pipe_tlc(module, cfg, name, consumer, workers=8, timeout=900, extra=()):
+    """TLC with edge emission piped into a consumer binary that prints one JSON report on stdout and echoes
+    non-edge lines (TLC's own output) on stderr. Returns (tlc stats, consumer report)."""
+    meta = outdir('tlc', name)
+    clean_dir(meta)
+    tlclog = os.path.join(outdir('logs'), name + '.tlc.log')
+    tlc = subprocess.Popen(tlc_cmd(module, cfg, meta, workers, extra), cwd=SPECS, stdout=subprocess.PIPE, stderr=subprocess.STDOUT)
+    with open(tlclog, 'w') as lf:
+        cp = subprocess.Popen(consumer, stdin=tlc.stdout, stdout=subprocess.PIPE, stderr=lf, cwd=ROOT, text=True)
+        tlc.stdout.close()
+        try:
+            out, _ = cp.communicate(timeout=timeout)
+            tlc.wait(timeout=30)
+        except subprocess.TimeoutExpired:
+            tlc.kill(); cp.kill()
+            shutil.rmtree(meta, ignore_errors=True)
+            raise ToolError('suite %s timed out after %ss' % (name, timeout))
+    shutil.rmtree(meta, ignore_errors=True)
+    if cp.returncode != 0:
+        raise ToolError('consumer of suite %s failed (exit %s): %s' % (name, cp.returncode, out[-500:]))
+    text = open(tlclog).read()
+    stats = parse_tlc_log(text)
+    if stats['errors'] and not stats['violated']:
+        raise ToolError('TLC error in suite %s: %s' % (name, stats['errors'][:2]))
+    stats['text_trace'] = extract_trace(text) if stats['violated'] else ''
+    return stats, json.loads(out)
+
 # --------------------------------------------------------------------------- known findings / verdict
 
 def load_findings():
@@ -334,6 +362,8 @@ def main(argv):
                 pass
             if kind == 'tworun':
                 r = subprocess.run([binpath('tworun'), '--one', rest[0]], cwd=ROOT)
+            elif kind == 'overlay':
+                r = subprocess.run([binpath('overlay'), '--one', rest[0]], cwd=ROOT)
             elif kind in ('mismatch', 'predicate', None):
                 r = subprocess.run([binpath('replay'), '--one', rest[0]], cwd=ROOT)
             else:
